@@ -658,6 +658,49 @@ def run(ctx):
                    n_eval, len(run_.samples), len(set((s["ui"], s["x"]) for s in run_.samples))),
                not fail_new, json.dumps(fail_new[:2], ensure_ascii=True)[:1800])
 
+    # ---- untagged enums that are distinguishable from the JSON alone must not become flattened unions
+    flat_bad, n_dist, n_untagged = [], 0, 0
+    for (ui, r) in sorted(run_.docs):
+        u = us[ui]
+        by = {d["name"]: d for d in u["types"]}
+        for x in rustgen.reachable(u, r):
+            d = by[x]
+            if d["kind"] != "enum" or d["tagging"]["k"] != "untagged":
+                continue
+            n_untagged += 1
+            if not rustgen.untagged_distinguishable(d, by):
+                continue
+            if any(rustgen.known_array_vs_tuple_gap(a, b, by) for a in d["variants"] for b in d["variants"] if a is not b):
+                continue        # finding C04-1 sub-shape (curated witness f1-untagged-array-vs-tuple-length.json)
+            n_dist += 1
+            for route in run_.routes:
+                c = run_.case_of.get((ui, r, route))
+                if c is None or w.status[c] == "not-generated":
+                    continue
+                tn, tid = gen_type_name(w.gen[c], route, r, x)
+                e = w.gen[c]["dump"]["entries"].get(str(tid)) if tid is not None else None
+                if e and e["kind"] == "struct" and e["props"] and all(p["rename"]["k"] == "flatten" for p in e["props"]):
+                    flat_bad.append({"universe_index": ui, "root": r, "route": route, "type": x,
+                                     "rust": rustgen.rs_def(d), "ir": e["props"]})
+    ctx.coverage["untagged_enums"] = n_untagged
+    ctx.coverage["untagged_enums_distinguishable_by_predicate"] = n_dist
+    ctx.oblige("untagged enums distinguishable by JSON type / array length / required members are converted to enums, "
+               "not to flattened unions (%d (enum, root) pairs)" % n_dist, not flat_bad, json.dumps(flat_bad[:2])[:1500])
+    # C04-1 may only absorb curated enums the independent predicate calls indistinguishable (or the recorded sub-shape)
+    mis = []
+    for ci, c in enumerate(corpus):
+        by = {d["name"]: d for d in c["universe"]["types"]}
+        unt = [d for d in c["universe"]["types"] if d["kind"] == "enum" and d["tagging"]["k"] == "untagged"]
+        if c.get("finding") == "C04-1":
+            ok_ = any((not rustgen.untagged_distinguishable(d, by)) or
+                      any(rustgen.known_array_vs_tuple_gap(a, b, by) for a in d["variants"] for b in d["variants"] if a is not b)
+                      for d in unt)
+            if not ok_:
+                mis.append(c["file"])
+        if c.get("must_be_distinguishable") and not all(rustgen.untagged_distinguishable(d, by) for d in unt):
+            mis.append(c["file"])
+    ctx.oblige("class C04-1 is keyed on curated universes the independent predicate cannot distinguish", not mis, str(mis))
+
     # ---- regression cases of fixed findings: must convert, compile and exchange values on the listed routes
     reg_bad = []
     for ci, c in enumerate(corpus):
@@ -768,6 +811,13 @@ def run(ctx):
         if not reported:
             ctx.violation(dict(v, broken_obligations=[b[0] for b in ctx.broken()]))
             reported = True
+    if not reported and flat_bad:
+        fb = flat_bad[0]
+        ctx.violation(dict(fb, kind="distinguishable-untagged-enum-flattened", universe=us[fb["universe_index"]],
+                           document=run_.docs.get((fb["universe_index"], fb["root"])),
+                           expected="an untagged enum (the variants differ by JSON type, array length or required members)",
+                           broken_obligations=[b[0] for b in ctx.broken()]))
+        reported = True
     if not reported and reg_bad:
         ci = [i for i, c in enumerate(corpus) if c["file"] == reg_bad[0]["corpus"]][0]
         ctx.violation(dict(reg_bad[0], kind="regression-of-fixed-finding", universe=us[ci], rust=rustgen.rs_universe(us[ci]),
